@@ -87,11 +87,25 @@ def generate(seeds=(1, 2, 3), tier='quick'):
     # thorough: the enumeration is split over several modules (built in parallel by lake); quick: one module
     CH = 48
     chunks = [cases[i:i + CH] for i in range(0, len(cases), CH)] if tier != 'quick' else [cases]
+    acc = []
     for ci, chunk in enumerate(chunks):
         gc = g if ci == 0 else GenFile(f'{PID}p{ci}', imports=['NdeVerif.Proofs.C10'])
         if ci:
             g.parts.append(gc)
-        _emit_cases(gc, chunk, stats, seeds)
+        _emit_cases(gc, chunk, stats, seeds, acc)
+    # operation-order model: every routed value clause holds EXACTLY in every arithmetic with the IEEE-754 identities
+    from .. import fex as F
+    nodes, ctxs, specs = {}, {}, []
+    for kind, lk, name, node, ctx in acc:
+        nodes[name], ctxs[name] = node, ctx
+        row = lambda pname, ctor: f'th{lk[pname] % NTH}' if pname in lk else ctor
+        if kind in ('ivp_d', 'ivp_n'):
+            specs.append((f'{name}_value_exact', name, [('t', row('t_0', 'c_t0'))], row('u_0', 'c_u0'),
+                          f'BundleIVP lookup {lk}: u(t0_row) is exactly u0_row'))
+        else:
+            specs.append((f'{name}_left_exact', name, [('t', row('t_0', 'c_t0'))], row('u_0', 'c_u0'), f'BundleDirichletBVP lookup {lk}: u(t0_row) is exactly u0_row'))
+            specs.append((f'{name}_right_exact', name, [('t', row('t_1', 'c_t1'))], row('u_1', 'c_u1'), f'BundleDirichletBVP lookup {lk}: u(t1_row) is exactly u1_row'))
+    F.exact_part(g, PID, nodes, ctxs, specs)
     return g, stats
 
 
@@ -153,12 +167,14 @@ def _model_tie(g, kind, lk, name, tree, vars_, rv, row, V):
     return ok
 
 
-def _emit_cases(g, cases, stats, seeds):
+def _emit_cases(g, cases, stats, seeds, acc=None):
     for kind, lk in cases:
         name = cfg_name(kind, lk)
         sw, outs, st = tie_check(scenario(kind, lk), seeds[:2], n_rows=(3,))
         stats[name] = st
         tree = sw.tree(outs[0])
+        if acc is not None:
+            acc.append((kind, lk, name, outs[0].cols[0], sw.ctx))
         vars_ = sw.ctx.vars
         g.add_def(name, tree, f'traced from /repo: {kind} with bundle_param_lookup={lk}; variables {vars_}')
         rv = list(vars_)
